@@ -37,7 +37,7 @@ func addSourceSeeds(f *testing.F) {
 		}
 	}
 	for _, s := range []string{"", "{{", "{{-", "{*", "{{\"", "{{`", "{{'", "{{ & }}", "{{ _é }}", "{{ .5 }}", "{{ 1e }}", "{{ 0x }}", "{{end}}", "{{else}}", "{{if}}", "{{block b()}}", "{{extends \"/base.jet\"}}", "{{import \"main.jet\"}}",
-		"{{ a[ }}", "{{ a[:] }}", "{{ x | f: _, }}", "{{ try }}{{ catch e }}{{ end }}", "{{ range i, v := x }}{{ else }}{{ end }}", "{{ yield b(a=1) content }}{{ end }}", "{{ return }}", "{{ a ? b : c }}", "\xff{{\xfe}}", "{{ \"\\", "[[ x ]]", "<% x %>"} {
+		"{{ a[ }}", "{{ a[:] }}", "{{ x | f: _, }}", "{{ try }}{{ catch e }}{{ end }}", "{{ range i, v := x }}{{ else }}{{ end }}", "{{ yield b(a=1) content }}{{ end }}", "{{ return }}", "{{ a ? b : c }}", "{{ -٣ }}", "{{ f(+３) }}", "{{ x[-৩] }}", "{{ a\u00a0b }}", "\xff{{\xfe}}", "{{ \"\\", "[[ x ]]", "<% x %>"} {
 		for sel := uint8(0); sel < 10; sel += 3 {
 			f.Add(s, sel)
 		}
